@@ -209,6 +209,23 @@ def run(tier, rng, C):
         inv.compose = rng.random() < 0.5
         inv.nodes[('n.yml',)] = G.doc(inc, [], M(('q', I(1))))
         add(inv, rng.choice([G.op_node('n'), 'all', G.op_node(lossy), G.op_node('m')]), nomodel=True, pre='u')
+    # (c3) long strings with multi-byte characters that hold a malformed reference (also as include entries): the
+    # parse error is an error, whatever its length
+    for i in range(30 if tier == 'quick' else 800):
+        inv = G.Inv()
+        unit = rng.choice(['\u00e9', '\u65e5', '\U0001f600', 'a\u00e9'])
+        pre = 'x' * rng.randint(0, 3) + unit * rng.randint(30, 140)
+        bad = pre + rng.choice([' echo ${unterminated', ' ${}', ' ${a:${b}', ' $[ ${'])
+        where = rng.choice(['param', 'param', 'nested', 'include'])
+        if where == 'include':
+            inv.classes[('c.yml',)] = G.doc([bad], [], M(('a', I(1))))
+        elif where == 'nested':
+            inv.classes[('c.yml',)] = G.doc([], [], M(('m', M(('l', L(S('ok'), S(bad)))))))
+        else:
+            inv.classes[('c.yml',)] = G.doc([], [], M(('script', S(bad))))
+        inv.nodes[('n.yml',)] = G.doc(['c'], [], M(('q', I(1))))
+        inv.universe.add('c')
+        add(inv, G.op_node('n') if i % 3 else 'all', nomodel=True, pre='v')
     # (d) deep but finite input: nested references, nested containers, long include chains
     depths = [10, 64, 65, 100, 127, 128, 129, 130, 131, 1000, 20000]
     for d in depths:
